@@ -15,7 +15,7 @@ FAMILIES = {
     'C02': ['stake', 'rewards', 'batch', 'fee_withdraw', 'ibc', 'recover'],
     'C03': ['stake', 'batch', 'recover'],
     'C04': ['stake', 'batch'],
-    'C05': ['batch', 'funds'],
+    'C05': ['batch', 'funds', 'queries'],
     'C06': ['batch', 'funds', 'instantiate'],
     'C07': ['recover', 'ibc', 'stake'],
     'C08': ['auth', 'ownership', 'recover', 'rewards', 'batch', 'funds', 'instantiate'],
